@@ -51,7 +51,8 @@ for _t in ("quick", "thorough"):
     PROPS["C20"][_t]["neg_models"] = [("MC_Conc.tla", "MC_Conc_negctl.cfg")]
 
 # run kind (C): TLC-simulated behaviours of the full-size Calc machine replayed into the library (num is per TLC worker)
-for _p, _q, _t in [("C01", 40, 1500), ("C02", 40, 1500), ("C03", 25, 800), ("C04", 25, 800), ("C06", 25, 800), ("C08", 25, 800), ("C11", 25, 800), ("C12", 25, 800), ("C19", 25, 800)]:
+for _p, _q, _t in [("C01", 40, 1500), ("C02", 40, 1500), ("C03", 25, 800), ("C04", 25, 800), ("C06", 25, 800), ("C08", 25, 800), ("C11", 25, 800), ("C12", 25, 800), ("C19", 25, 800),
+                   ("C07", 20, 400), ("C09", 20, 400), ("C16", 12, 300), ("C17", 25, 800)]:
     PROPS[_p]["quick"]["calc"] = _q
     PROPS[_p]["thorough"]["calc"] = _t
 
